@@ -227,7 +227,8 @@ _FIELD_MEMO = {}
 
 
 def field_is_index_ext(prog, adt, field):
-    k = (id(prog), adt, field)
+    _FIELD_MEMO = prog.__dict__.setdefault('_field_idx_memo', {})
+    k = (adt, field)
     if k in _FIELD_MEMO:
         return _FIELD_MEMO[k]
     _FIELD_MEMO[k] = (True, 'rec')
